@@ -100,7 +100,8 @@ def r06_2(ctx: Ctx) -> None:
         # the one place that turns packpos into a position: start of the packed area = end of the signature header PLUS packpos, whenever a
         # PackInfo exists (every fixture of the test suite has packpos 0, so the sign and the guard are invisible to it)
         rets = [r for r in walk(ps.node) if isinstance(r, ast.Return) and r.value is not None and any(isinstance(x, ast.Attribute) and x.attr == "packpos" for x in ast.walk(r.value))]
-        ctx.floor("R06.2", len(rets), 1, "return of _packed_start that uses packpos")
+        ctx.check(bool(rets), "R06.2", ps, ps.node, "_packed_start uses packpos", "_packed_start never adds PackInfo.packpos: the packed area of an archive whose header precedes the data "
+                  "(or that has a gap) is taken to start right behind the signature header", construct="_packed_start ignores packpos")
         for r in rets:
             v = r.value
             ok = isinstance(v, ast.BinOp) and isinstance(v.op, ast.Add) and {("afterheader" in norm(v.left)), ("afterheader" in norm(v.right))} == {True, False} \
@@ -750,7 +751,7 @@ def r06_12(ctx: Ctx, rule: str = "R06.12") -> None:
     # the walk keeps TWO cursors: the folder number and the number of the folder's first packed stream.  Wherever the folder cursor is advanced
     # (passing over an empty folder, finishing a folder) the stream cursor is advanced in the same block by the folder's own packed-stream count
     fsteps = [n for n in walk(g.node) if isinstance(n, ast.AugAssign) and isinstance(n.op, ast.Add) and isinstance(n.target, ast.Attribute) and n.target.attr == "folder"]
-    ctx.floor(rule, len(fsteps), 2, "advances of the folder cursor in _real_get_contents")
+    ctx.floor(rule, len(fsteps), 1, "advances of the folder cursor in _real_get_contents")
     from ..model import parent_map
     pm = parent_map(g.node)
     for st in fsteps:
